@@ -4,7 +4,7 @@
 here="$(cd "$(dirname "$0")/.." && pwd)"; cd "$here"; rc=0
 for c in C01 C02 C03 C04 C05 C06 C07 C08 C09 C10 C11 C12 C13 C14 C15 C16 C17 C18 C19 C20; do
   out=$(./check $c --limit ${1:-6} --no-evidence 2>&1); st=$?
-  if echo "$out" | grep -qE "Traceback|VIOLATION|worker died" || [ $st -eq 1 ]; then
+  if echo "$out" | grep -qE "Traceback|VIOLATION|worker died|HARNESS ERROR" || [ $st -eq 1 ]; then
     echo "$c: PROBLEM (exit $st)"; echo "$out" | grep -E "Traceback|Error|VIOLATION|rule=|died" | head -5; rc=1
   else echo "$c: ok (exit $st)"; fi
 done
